@@ -150,3 +150,145 @@ Theorem C03_cdb_map_records : forall f decls db kind n wild,
   get db (v1_map_key kind n wild) = option_map (fun id => mapid_bytes id) (lookup_decl decls kind wild n).
 Proof. exact cdb_map_records. Qed.
 Print Assumptions C03_cdb_map_records.
+
+(* ==================================================================================
+   C03 x C07 / C15: the database-contents hypothesis of C03_rdb_driver_is_lpm
+   discharged (Proofs/SquashKeys.v, Proofs/LinkEcsLpm.v, Proofs/LinkRdbDb.v,
+   Proofs/LinkRdbModel.v).
+   ================================================================================== *)
+From DnsV Require Import Model.Compile Spec.MapOfLists Proofs.MultiValue Proofs.Batch Proofs.CompilePipe.
+From DnsV Require Import Proofs.SquashKeys Proofs.LinkEcsLpm Proofs.LinkRdbDb Proofs.LinkRdbModel.
+
+(* ---- the squash property: within one map Rearrange never emits two points with the
+   same (address, mask byte), i.e. the range-point keys of its points are pairwise
+   different (and no point is emitted twice) *)
+Theorem C03_rearrange_keys_distinct : forall sort S pts m, sort_spec sort -> wf_subnets S ->
+  rearrange sort S = Ok pts -> NoDup (map (rp_key m) pts).
+Proof. exact rearrange_rp_keys_nodup. Qed.
+Print Assumptions C03_rearrange_keys_distinct.
+
+Theorem C03_rearrange_address_mask_distinct : forall sort S pts, sort_spec sort -> wf_subnets S ->
+  rearrange sort S = Ok pts -> NoDup (map (fun p => (p_ip p, rp_mlen p)) pts).
+Proof. exact rearrange_keys_nodup. Qed.
+Print Assumptions C03_rearrange_address_mask_distinct.
+
+(* ---- the hypothesis, named: for every map the range-point records of the database
+   are exactly those of the points Rearrange returns for the map's subnets *)
+Theorem C03_rdb_holds_points_unfold : forall sort nets db,
+  rdb_holds_points sort nets db <->
+  forall m, exists pts, rearrange sort (nets m) = Ok pts /\
+    (forall p, In p pts -> In (rp_key m p, mv1 (rp_value p)) db) /\
+    (forall k v, In (k, v) db -> is_prefix (rp_marker ++ mapid_bytes m) k = true ->
+       exists p, In p pts /\ k = rp_key m p /\ v = mv1 (rp_value p)).
+Proof. exact rdb_holds_points_unfold. Qed.
+Print Assumptions C03_rdb_holds_points_unfold.
+
+(* ---- from C07's conclusion.  The codec is C07's parameter (conv, accum, feature);
+   [rp_codec ... f] says what is needed of it for the file f:
+     exists acc extra, rp_accum sort nets ids = Ok acc            (the range-point records
+                         (rp_key m p, rp_value p) of the points of every map m in ids)
+       /\ Permutation (accum f) (acc ++ extra)                    (SubnetRanger.MarshalMap, maps in any order,
+                                                                   plus e.g. the prefix sets)
+       /\ no key of a line's records, of extra or of the feature records starts with \000\000\000!
+   [ids]: the maps that have subnet lines.  [db] is a store as the RocksDB compilers of
+   C07 produce it (store_ok: framed multi-values; every key holds the values the
+   codec's records hold for it, as a multiset - the conclusion of C07_builder_lossless
+   and C07_batches_lossless), [dbl] its listing.  Multi-value grouping concatenates the
+   values of equal keys; by the squash property every range-point key occurs once, so
+   its record holds exactly one chunk: the location. *)
+Theorem C03_rdb_db_from_compile :
+  forall line conv accum feature sort nets ids,
+  sort_spec sort -> (forall m, wf_subnets (nets m)) -> NoDup ids -> (forall m, ~ In m ids -> nets m = []) ->
+  forall f (db : store) dbl, rp_codec line conv accum feature sort nets ids f ->
+  store_ok db -> (forall k, Permutation (vals db k) (spec_compile line conv accum feature f k)) ->
+  lists_store dbl db -> rdb_holds_points sort nets dbl.
+Proof. exact rdb_db_from_compile. Qed.
+Print Assumptions C03_rdb_db_from_compile.
+
+(* ... hence for every RocksDB compilation of the file in the sense of C07 *)
+Theorem C03_rdb_db_from_compilation :
+  forall line conv accum feature sort nets ids,
+  sort_spec sort -> (forall m, wf_subnets (nets m)) -> NoDup ids -> (forall m, ~ In m ids -> nets m = []) ->
+  forall f (db : store) dbl, rp_codec line conv accum feature sort nets ids f ->
+  feature <> [] -> kvs_ok (records line conv accum feature f) ->
+  rdb_compilation line conv accum feature f db ->
+  lists_store dbl db -> rdb_holds_points sort nets dbl.
+Proof. exact rdb_db_from_compilation. Qed.
+Print Assumptions C03_rdb_db_from_compilation.
+
+(* the listing exists *)
+Theorem C03_compiled_store_listing : forall line conv accum feature f (db : store),
+  store_ok db -> (forall k, Permutation (vals db k) (spec_compile line conv accum feature f k)) ->
+  exists dbl, lists_store dbl db.
+Proof. exact compiled_store_listing. Qed.
+Print Assumptions C03_compiled_store_listing.
+
+(* the maps of a data file that have subnet lines satisfy the two side conditions on ids *)
+Theorem C03_file_ids_ok : forall f, NoDup (file_ids f) /\ forall m, ~ In m (file_ids f) -> nets_of f m = [].
+Proof. exact (fun f => conj (file_ids_nodup f) (file_ids_cover f)). Qed.
+Print Assumptions C03_file_ids_ok.
+
+(* non-vacuity and a closed instance: the codec over subnet lines only (lines emit
+   nothing, the accumulator emits the range points, one features record) satisfies
+   rp_codec and C07's side conditions; every compilation of such a file is
+   longest-prefix match under GetLocationByMap, and compilations exist *)
+Theorem C03_net_codec_ok : forall sort f, sort_spec sort -> (forall m, wf_subnets (nets_of (net_file f) m)) ->
+  rp_codec netline net_conv (net_accum sort) net_feature sort (nets_of (net_file f)) (file_ids (net_file f)) f /\
+  net_feature <> [] /\ kvs_ok (records netline net_conv (net_accum sort) net_feature f) /\
+  accepted netline net_conv f = true.
+Proof. exact net_codec_ok. Qed.
+Print Assumptions C03_net_codec_ok.
+
+Theorem C03_rdb_compiled_is_lpm : forall sort f (db : store) dbl,
+  sort_spec sort -> (forall m, wf_subnets (nets_of (net_file f) m)) ->
+  rdb_compilation netline net_conv (net_accum sort) net_feature f db -> lists_store dbl db ->
+  forall m a bits ones plen, a < two128 -> client_plen a bits ones plen ->
+  rdb_get_location dbl m (mkClient (Some a) bits ones) =
+  Ok (lpm_result (lpm (nets_of (net_file f) m) (fam (clean_mask a plen)) (clean_mask a plen) plen)).
+Proof. exact net_compilation_is_lpm. Qed.
+Print Assumptions C03_rdb_compiled_is_lpm.
+
+Theorem C03_rdb_compiled_exists : forall sort ksort f,
+  sort_spec sort -> sort_ok ksort -> (forall m, wf_subnets (nets_of (net_file f) m)) ->
+  exists db dbl, rdb_compilation netline net_conv (net_accum sort) net_feature f db /\ lists_store dbl db.
+Proof. exact net_compilation_exists. Qed.
+Print Assumptions C03_rdb_compiled_exists.
+
+(* ---- the database model of C03 itself (rdb_db, the one Run/C03.v evaluates against the
+   real RocksDB databases): it satisfies the hypothesis, so the RocksDB side holds from
+   the data file through GetLocationByMap like C03_cdb_is_lpm, for both key layouts *)
+Theorem C03_rdb_model_db_holds_points : forall sort v2 f db, sort_spec sort -> wf_kinds f = true ->
+  (forall m, wf_subnets (nets_of f m)) -> rdb_db sort v2 f = Ok db ->
+  rdb_holds_points sort (nets_of f) db.
+Proof. exact rdb_db_holds_points. Qed.
+Print Assumptions C03_rdb_model_db_holds_points.
+
+Theorem C03_rdb_file_is_lpm : forall sort v2 f m db a bits ones plen, sort_spec sort ->
+  wf_kinds f = true -> (forall m', wf_subnets (nets_of f m')) -> rdb_db sort v2 f = Ok db ->
+  a < two128 -> client_plen a bits ones plen ->
+  rdb_get_location db m (mkClient (Some a) bits ones) =
+  Ok (lpm_result (lpm (nets_of f m) (fam (clean_mask a plen)) (clean_mask a plen) plen)).
+Proof. exact rdb_file_is_lpm. Qed.
+Print Assumptions C03_rdb_file_is_lpm.
+
+Theorem C03_rdb_model_db_total_v1 : forall sort f, sort_spec sort -> (forall m, wf_subnets (nets_of f m)) ->
+  exists db, rdb_db sort false f = Ok db.
+Proof. exact rdb_db_total_v1. Qed.
+Print Assumptions C03_rdb_model_db_total_v1.
+
+(* outside the guard the squash property fails and with it the RocksDB lookup (finding
+   F20): ::/1 with 255.0.0.0/8 yields the null point at ::1:0:0:0 twice, the record
+   under its key holds two chunks, and GetLocationByMap returns an error *)
+Theorem C03_rearrange_keys_distinct_refuted :
+  exists S pts, wf_but_overlap S = true /\ rearrange isort S = Ok pts /\
+    ~ NoDup (map (fun p => (p_ip p, rp_mlen p)) pts).
+Proof. exact rearrange_keys_distinct_refuted. Qed.
+Print Assumptions C03_rearrange_keys_distinct_refuted.
+
+Theorem C03_rdb_file_is_lpm_refuted :
+  exists f m db a, wf_kinds f = true /\ wf_but_overlap (nets_of f m) = true /\ rdb_db isort false f = Ok db /\
+    a < two128 /\
+    rdb_get_location db m (mkClient (Some a) 128 128) = Err 2 /\
+    lpm (nets_of f m) (fam a) a 128 = Some ((0, 1), 1).
+Proof. exact rdb_file_is_lpm_refuted. Qed.
+Print Assumptions C03_rdb_file_is_lpm_refuted.
